@@ -230,12 +230,14 @@ GI_ANNS = [ANN_ALLOW_NONE,
            ANN_ATTRIBUTES,
            ANN_CLOSURE,
            ANN_CONSTRUCTOR,
+           ANN_COPY_FUNC,
            ANN_DEFAULT_VALUE,
            ANN_DESTROY,
            ANN_ELEMENT_TYPE,
            ANN_EMITTER,
            ANN_FINISH_FUNC,
            ANN_FOREIGN,
+           ANN_FREE_FUNC,
            ANN_GET_PROPERTY,
            ANN_GET_VALUE_FUNC,
            ANN_GETTER,
